@@ -105,6 +105,21 @@ Theorem c04_split_month : forall produced eaten k,
 Proof. intros; split; [apply split_month_adds_up|apply split_month_nonneg]. Qed.
 Print Assumptions c04_split_month.
 
+(* (5b) since the clamp fix (production for humans = max(production - feed - biofuel, 0)): the part eaten immediately is
+   never negative either - extractor series, percent series and the saved column - for every allocation that reports
+   non-negative crops eaten, in particular for EVERY feasible assignment of the LP *)
+Theorem c04_split_immediate_nonneg : forall x e i, report x = Ok (e, i) -> positive_settings (r_conv x) -> 0 < r_km x ->
+  forall m, (m < r_n x)%nat -> 0 <= var_at (v_cr_h x) m ->
+  0 <= nthq (e_imm e) m /\ 0 <= nthq (p_imm i) m /\ 0 <= nthq (k_imm i) m.
+Proof. exact report_imm_nonneg. Qed.
+Print Assumptions c04_split_immediate_nonneg.
+
+Theorem c04_split_immediate_nonneg_feasible : forall i c ty a e ii, lp_settings_ok i c -> Feasible i ty a ->
+  report (report_in i c a) = Ok (e, ii) -> forall m, (m < NM i)%nat ->
+  0 <= nthq (e_imm e) m /\ 0 <= nthq (p_imm ii) m /\ 0 <= nthq (k_imm ii) m.
+Proof. intros i c ty a e ii S F. exact (report_lp_imm_nonneg i c a e ii S (proj1 F)). Qed.
+Print Assumptions c04_split_immediate_nonneg_feasible.
+
 (* ... so the Extractor's own run-time checks of the split (validate_sources_add_up,
    validate_outdoor_growing_production) can never fire, whatever the inputs *)
 Theorem c04_split_checks_never_fire : forall x, extract x <> Rejected AssertRejected.
